@@ -419,6 +419,16 @@ func (r *renderer) msg(s *rstate, m *Msg) Status {
 	if tr == nil {
 		return r.msgBody(s, m.Body)
 	}
+	phName := r.opts.PhName
+	if phName == nil {
+		info := ModelMsg(m)
+		phName = func(_ *Msg, child Node) string {
+			if tg, ok := child.(*msgTag); ok {
+				return info.TagNames[tg.text]
+			}
+			return info.Names[child]
+		}
+	}
 	byName := map[string]Node{}
 	var plural *Plural
 	var collect func(ns []Node)
@@ -436,14 +446,14 @@ func (r *renderer) msg(s *rstate, m *Msg) Status {
 				for _, piece := range SplitMsgText(c.Text) {
 					if piece.Tag {
 						tn := &msgTag{piece.Text}
-						name := r.opts.PhName(m, tn)
+						name := phName(m, tn)
 						if _, dup := byName[name]; !dup {
 							byName[name] = tn
 						}
 					}
 				}
 			default:
-				name := r.opts.PhName(m, c)
+				name := phName(m, c)
 				if _, dup := byName[name]; !dup {
 					byName[name] = c
 				}
